@@ -9,9 +9,11 @@ pub const A: u16 = 1;
 pub const NS: u16 = 2;
 pub const CNAME: u16 = 5;
 pub const SOA: u16 = 6;
+pub const PTR: u16 = 12;
 pub const MX: u16 = 15;
 pub const TXT: u16 = 16;
 pub const AAAA: u16 = 28;
+pub const DNAME: u16 = 39;
 pub const DS: u16 = 43;
 pub const RRSIG: u16 = 46;
 pub const NSEC: u16 = 47;
@@ -21,7 +23,7 @@ pub const NSEC3PARAM: u16 = 51;
 /// Types with a concrete `ZoneRecordData` variant that the harness builds
 /// through its constructor; every other code in the pool has no concrete
 /// variant and is built as `UnknownRecordData`.
-pub const CONCRETE: &[u16] = &[A, NS, CNAME, SOA, MX, TXT, AAAA, DS, DNSKEY, NSEC3PARAM];
+pub const CONCRETE: &[u16] = &[A, NS, CNAME, SOA, PTR, MX, TXT, AAAA, DNAME, DS, DNSKEY, NSEC3PARAM];
 
 /// Type codes without a concrete variant, spread over several bitmap windows.
 pub const UNKNOWN_POOL: &[u16] = &[255, 256, 258, 511, 512, 1234, 32768, 65280, 65281, 65534, 65535, 99, 127, 128, 254];
@@ -29,7 +31,7 @@ pub const UNKNOWN_POOL: &[u16] = &[255, 256, 258, 511, 512, 1234, 32768, 65280, 
 #[derive(Clone, Debug, PartialEq, Eq, Hash)]
 pub enum Rd {
     Soa { serial: u32, minimum: u32 },
-    Name(Labels),     // NS, CNAME
+    Name(Labels),     // NS, CNAME, DNAME, PTR
     Mx(u16, Labels),
     A([u8; 4]),
     Aaaa([u8; 16]),
@@ -109,8 +111,20 @@ fn plain_type(u: &mut Unstructured) -> u16 {
             let t = u16_(u);
             if t < 300 || (32768..=32769).contains(&t) { 1234 } else { t }
         }
-        _ => A,
+        // redirection / name-valued types the library has a concrete variant
+        // for and that zone-walking code may be tempted to treat specially:
+        // DNAME (RFC 6672: ordinary authoritative data, NOT a zone cut) and
+        // PTR; all-zero input still gives A
+        _ => [A, DNAME, DNAME, PTR][pick(u, 4)],
     }
+}
+
+/// `near` with its first label replaced by "dname-target" (the apex/root: a
+/// fixed foreign name), so that a DNAME never points into its own subtree.
+fn self_sibling(near: &Labels) -> Labels {
+    let mut n: Labels = near.iter().skip(1).cloned().collect();
+    n.insert(0, b"dname-target".to_vec());
+    n
 }
 
 fn rdata_for(u: &mut Unstructured, t: u16, near: &Labels) -> Rd {
@@ -124,12 +138,17 @@ fn rdata_for(u: &mut Unstructured, t: u16, near: &Labels) -> Rd {
             a[15] = byte(u);
             Rd::Aaaa(a)
         }
-        NS | CNAME => {
+        NS | CNAME | PTR => {
             let mut n = near.clone();
             if wire_len(&n) + 4 <= 255 {
                 n.insert(0, [b"ns".to_vec(), b"ns1".to_vec(), b"a".to_vec()][pick(u, 3)].clone());
             }
             Rd::Name(n)
+        }
+        DNAME => {
+            // redirection target outside the owner's own subtree
+            let n = self_sibling(near);
+            Rd::Name(if wire_len(&n) > 255 { vec![b"target".to_vec()] } else { n })
         }
         MX => Rd::Mx(u16_(u), near.clone()),
         TXT => Rd::Txt((0..pick(u, 6)).map(|_| byte(u)).collect()),
@@ -147,6 +166,8 @@ struct Builder {
     names: Vec<Labels>,
     /// names at which an NS was placed (not the apex)
     cuts: Vec<Labels>,
+    /// in-zone names that own a DNAME
+    dnames: Vec<Labels>,
     /// TTL per (lowercased owner, type): RRsets must have one TTL
     ttls: BTreeMap<(Labels, u16), u32>,
     max_names: usize,
@@ -159,6 +180,18 @@ impl Builder {
     fn add(&mut self, u: &mut Unstructured, owner: &Labels, t: u16) {
         if !self.fits(owner) || t == RRSIG || t == NSEC || t == 50 {
             return;
+        }
+        // RFC 6672 §2.4: no data may exist below the owner of a DNAME, and a
+        // DNAME RRset is a single record. Zones that break this are outside
+        // the input domain (what the chain should say about names below a
+        // DNAME is not covered by the statement), so they are not built.
+        if ends_with(owner, &self.apex) {
+            if self.dnames.iter().any(|d| strictly_below(owner, d)) {
+                return;
+            }
+            if t == DNAME && (self.names.iter().any(|n| strictly_below(n, owner)) || self.dnames.iter().any(|d| name_eq(d, owner))) {
+                return;
+            }
         }
         let key = (lower(owner), t);
         // exactly one SOA at the apex (placed by gen_zone); elsewhere at most
@@ -179,6 +212,9 @@ impl Builder {
         if ends_with(owner, &self.apex) {
             if !self.names.iter().any(|n| n == owner) {
                 self.names.push(owner.clone());
+            }
+            if t == DNAME {
+                self.dnames.push(owner.clone());
             }
             if t == NS && !name_eq(owner, &self.apex) && !self.cuts.iter().any(|n| name_eq(n, owner)) {
                 self.cuts.push(owner.clone());
@@ -266,7 +302,7 @@ pub fn gen_zone(u: &mut Unstructured, allow_class: bool) -> Zone {
     let soa_ttl = ttl(u);
     let soa_min = ttl(u);
     let max_names = if thorough { 500 } else { 60 };
-    let mut b = Builder { apex: apex.clone(), recs: vec![], names: vec![apex.clone()], cuts: vec![], ttls: BTreeMap::new(), max_names };
+    let mut b = Builder { apex: apex.clone(), recs: vec![], names: vec![apex.clone()], cuts: vec![], dnames: vec![], ttls: BTreeMap::new(), max_names };
     b.ttls.insert((lower(&apex), SOA), soa_ttl);
     b.recs.push(ZRec { owner: apex.clone(), rtype: SOA, ttl: soa_ttl, rd: Rd::Soa { serial: u32_(u), minimum: soa_min } });
     if !chance(u, 40) {
